@@ -74,6 +74,7 @@ func runC07(c *core.Ctx) {
 				args = append(args, period...)
 			}
 			args = append(args, cmd...)
+			args = respell(r, args)
 			res := srv.App1(args, nil)
 			c.Eval(1)
 			if res.Exit != 0 || res.Panic != "" {
